@@ -21,7 +21,8 @@ JudgeEdge(e) ==
             C15_rejected_changes_nothing |-> G(~e.ok, e.digest_same /\ ~e.cfg_changed /\ e.obs = e.src),
             C20_auth_rejected_noop  |-> G(~e.ok, e.digest_same),
             C15_config_changes_only_by_accepted_config_message |-> G(e.cfg_changed, e.ok /\ e.msg.kind = "config"),
-            M_config_message_changes_config |-> G(e.ok /\ e.msg.kind = "config", e.cfg_changed) ]
+            C15_empty_update_changes_nothing |-> G(e.msg.kind = "config" /\ e.msg.what = "nothing", ~e.cfg_changed),
+            M_config_message_changes_config |-> G(e.ok /\ e.msg.kind = "config" /\ e.msg.what # "nothing", e.cfg_changed) ]
 JudgeObj(e) ==
   IF e.tick
   THEN [ C15_obj_time_only_unlocks |-> Must(e.src_obs = e.src /\ e.obs = (IF e.src.pos = "closed" THEN [e.src EXCEPT !.pos = "unlocked"] ELSE e.src)) ]
